@@ -164,6 +164,10 @@ type Sched struct {
 	preempts   int // parks that happened inside a harness operation
 	inOp       int
 	rawRun     int
+	spinner    *Task
+	lastPick   *Task
+	soloSteps  int
+	lastPickAt int
 	siteHits   map[int]int
 	OnLock     func(t *Task)
 	OnIdle     func() // optional: called by root when nothing is runnable (before tick)
@@ -362,6 +366,14 @@ func (s *Sched) yield(site int) {
 		}
 	}
 	if s.steps > s.plan.MaxSteps {
+		s.park(t, site, tsParked)
+		return
+	}
+	if s.segSteps > 3000 && s.plan.Strategy != "follow" {
+		// fairness: a task that runs this long without parking is spinning on somebody
+		// else's progress (nitro has such loops); strict priorities or a worker bias
+		// would starve the task it waits for. Let the others run.
+		s.spinner = t
 		s.park(t, site, tsParked)
 		return
 	}
@@ -604,7 +616,17 @@ func (s *Sched) Run() Verdict {
 			s.traceSites = append(s.traceSites, 0)
 			continue
 		}
+		before := s.steps
 		t := s.pick(runnable)
+		if t != nil {
+			if t == s.lastPick {
+				s.soloSteps += before - s.lastPickAt
+			} else {
+				s.soloSteps = 0
+			}
+			s.lastPick = t
+			s.lastPickAt = before
+		}
 		if t == nil { // follow mode requested a clock tick
 			time.Sleep(time.Millisecond)
 			s.simTime += time.Millisecond
@@ -646,6 +668,25 @@ func (s *Sched) pick(runnable []*Task) *Task {
 		// past the end of the recorded schedule: run to completion, first runnable
 		s.followLeft = 1 << 30
 		return runnable[0]
+	}
+	// fairness: when one task has been the only one running for a long stretch although
+	// others are runnable (worker bias or priorities keep selecting it while it spins on
+	// their progress), somebody else gets a turn
+	if s.lastPick != nil && s.soloSteps > 3000 && s.spinner == nil && s.plan.Strategy != "follow" {
+		s.spinner = s.lastPick
+	}
+	if s.spinner != nil {
+		sp := s.spinner
+		s.spinner = nil
+		var others []*Task
+		for _, t := range runnable {
+			if t != sp {
+				others = append(others, t)
+			}
+		}
+		if len(others) > 0 {
+			return others[s.rng.Intn(len(others))]
+		}
 	}
 	cands := runnable
 	switch s.plan.Bias {
